@@ -123,6 +123,30 @@ func TestLastIndexModel(t *testing.T) {
 	}
 }
 
+// assumed contract of strings.SplitN for n == 2: one element when the separator does not occur, otherwise a split at the
+// first occurrence
+func TestSplitNTwoModel(t *testing.T) {
+	r := rng()
+	for i := 0; i < 20000; i++ {
+		s := randStr(r, "ab:|", 10)
+		sep := randStr(r, ":|a", 2)
+		if sep == "" {
+			continue
+		}
+		p := strings.SplitN(s, sep, 2)
+		if !strings.Contains(s, sep) {
+			if len(p) != 1 || p[0] != s {
+				t.Fatalf("SplitN(%q, %q, 2) = %q contradicts the model", s, sep, p)
+			}
+			continue
+		}
+		k := strings.Index(s, sep)
+		if len(p) != 2 || p[0] != s[:k] || p[1] != s[k+len(sep):] {
+			t.Fatalf("SplitN(%q, %q, 2) = %q contradicts the model", s, sep, p)
+		}
+	}
+}
+
 // header ghost model: Get after Del is empty, Add appends under the canonical key, Set replaces
 func TestHeaderModel(t *testing.T) {
 	r := rng()
